@@ -208,7 +208,7 @@ func runCase(c Case, r *runlog.R) error {
 		}
 		for _, s := range segs[i] {
 			if s.isIdx && s.idx > materialLimit() {
-				r.Class("discarded: index above 1025 (thorough tier 5001) under a huge MaxIdx, list not materialised")
+				r.Class("discarded: index above 1025 under a huge MaxIdx, list not materialised")
 				r.Discard()
 				return nil
 			}
@@ -522,7 +522,7 @@ func gridMaxIdx() []*int64 {
 }
 
 // gridCaps: the caps of the grid sub-check: the small ones plus the boundary
-// values of the MaxIdx parameter (spellings above 5001 that such a cap turns
+// values of the MaxIdx parameter (spellings above 1025 that such a cap turns
 // into indices are discarded: the list is not materialised).
 func gridCaps() []*int64 {
 	return append(gridMaxIdx(), i64(math.MaxInt32), i64(math.MaxInt64-1), i64(math.MaxInt64))
@@ -592,14 +592,14 @@ func enumGrid(yield func(Case) bool) {
 						if !yield(c) {
 							return
 						}
-						// the option list as a sequence: thorough tier every variant, quick tier one (rotating)
+						// the option list as a sequence: one rotating variant per combination (quick tier: struct site
+						// every third, none with EscapePath); thorough tier: every variant at the map site
 						vs := seqVariants(c)
-						if !runlog.Thorough() && len(vs) > 0 {
-							if esc || build == "struct" && n%3 != 0 {
-								n++
+						if len(vs) > 0 && !(runlog.Thorough() && build == "map" && !esc) {
+							n++
+							if esc || (!runlog.Thorough() && build == "struct" && n%3 != 0) {
 								continue
 							}
-							n++
 							vs = vs[n%len(vs) : n%len(vs)+1]
 						}
 						for _, v := range vs {
@@ -616,7 +616,7 @@ func enumGrid(yield func(Case) bool) {
 
 var subGrid = runlog.Register(&runlog.Sub[Case]{
 	Name: "grid",
-	Rule: fmt.Sprintf("full product of %d key spellings (decimal, signs, -0, 0x/0X, 0o, 0b, leading zeros, underscores, cap-1/cap/cap+1 of every MaxIdx of the grid in several bases, +-2^63 neighbours, blanks, 1.0, 1e1, empty, non-ASCII digits, plain names) x 9 layouts (sole key / one of several keys with and without PathSep, first / middle / last dotted segment, with and without named siblings in the same node) x MaxIdx {not given, 0, 1, 7, 2000, MaxInt32, MaxInt64-1, MaxInt64; thorough tier also 5000} x EnableNumKeys {not given, false, true} x write site {NewFrom(map), NewFrom(struct with the key as tag name), SetString by name} x EscapePath {not given, given (quick tier: given only at the map site with MaxIdx not given or 7)} x option-list variant {every option once; EnableNumKeys(opposite value) earlier in the list; MaxIdx(another value: 0, 7, 2000 or MaxInt64) directly before the effective one; PathSep(/) earlier; all of these together in front of the explicit options in reverse order / each directly before its override - the LAST occurrence of an option counts; thorough tier: all applicable variants, quick tier: one rotating variant per combination (struct site every third, none with EscapePath)}; every built config is read back through Unpack (map, list, struct with the same tag names), String, Has and Remove by name under the same options. Oracle: own base-0 literal reader + classification (index iff literal, 0<=v<=MaxIdx, numeric keys not enabled for a single-segment key; under EscapePath a key written as [..] is one segment, otherwise EscapePath changes nothing) => expected stored tree, compared with the stored tree (verif hook), IsDict/IsArray/CountField/GetFields, Unpack and getters; no list longer than MaxIdx+1. Non-trivial: the spelling parses as an integer under base-0 rules and is not a plain decimal inside [0,MaxIdx], or lies within 1 of the cap. Discarded: struct site with an empty key or a comma, setter with an empty name, spellings equal to a sibling, spellings that a huge MaxIdx turns into an index above 1025 (thorough tier 5001) (the list is not materialised). Negative MaxIdx is not documented and not generated.", len(gridSpellings)),
+	Rule: fmt.Sprintf("full product of %d key spellings (decimal, signs, -0, 0x/0X, 0o, 0b, leading zeros, underscores, cap-1/cap/cap+1 of every MaxIdx of the grid in several bases, +-2^63 neighbours, blanks, 1.0, 1e1, empty, non-ASCII digits, plain names) x 9 layouts (sole key / one of several keys with and without PathSep, first / middle / last dotted segment, with and without named siblings in the same node) x MaxIdx {not given, 0, 1, 7, 2000, MaxInt32, MaxInt64-1, MaxInt64; thorough tier also 5000} x EnableNumKeys {not given, false, true} x write site {NewFrom(map), NewFrom(struct with the key as tag name), SetString by name} x EscapePath {not given, given (quick tier: given only at the map site with MaxIdx not given or 7)} x option-list variant {every option once; EnableNumKeys(opposite value) earlier in the list; MaxIdx(another value: 0, 7, 2000 or MaxInt64) directly before the effective one; PathSep(/) earlier; all of these together in front of the explicit options in reverse order / each directly before its override - the LAST occurrence of an option counts; one rotating variant per combination (quick tier: struct site every third; none with EscapePath), thorough tier: all applicable variants at the map site}; every built config is read back through Unpack (map, list, struct with the same tag names), String, Has and Remove by name under the same options. Oracle: own base-0 literal reader + classification (index iff literal, 0<=v<=MaxIdx, numeric keys not enabled for a single-segment key; under EscapePath a key written as [..] is one segment, otherwise EscapePath changes nothing) => expected stored tree, compared with the stored tree (verif hook), IsDict/IsArray/CountField/GetFields, Unpack and getters; no list longer than MaxIdx+1. Non-trivial: the spelling parses as an integer under base-0 rules and is not a plain decimal inside [0,MaxIdx], or lies within 1 of the cap. Discarded: struct site with an empty key or a comma, setter with an empty name, spellings equal to a sibling, spellings that a huge MaxIdx turns into an index above 1025 (the list is not materialised). Negative MaxIdx is not documented and not generated.", len(gridSpellings)),
 	Enum: enumGrid,
 	Run:  runCase,
 })
